@@ -62,6 +62,9 @@ struct upipe_ts_decaps {
     int8_t last_cc;
     /** last TS packet */
     struct uref *last_uref;
+    /** true if a discontinuity was detected on a packet without payload
+     * and has not been signalled downstream yet */
+    bool discontinuity;
 
     /** lost packets based on cc errors */
     uint64_t lost;
@@ -98,6 +101,7 @@ static struct upipe *upipe_ts_decaps_alloc(struct upipe_mgr *mgr,
     upipe_ts_decaps->last_cc = -1;
     upipe_ts_decaps->lost = 0;
     upipe_ts_decaps->last_uref = NULL;
+    upipe_ts_decaps->discontinuity = false;
     upipe_throw_ready(upipe);
     return upipe;
 }
@@ -128,7 +132,8 @@ static void upipe_ts_decaps_input(struct upipe *upipe, struct uref *uref,
     UBASE_FATAL(upipe, uref_block_peek_unmap(uref, 0, buffer, ts_header))
     UBASE_FATAL(upipe, uref_block_resize(uref, TS_HEADER_SIZE, -1))
 
-    bool discontinuity = upipe_ts_decaps->last_cc == -1;
+    bool discontinuity = upipe_ts_decaps->last_cc == -1 ||
+                         upipe_ts_decaps->discontinuity;
     bool random = false;
     if (unlikely(has_adaptation)) {
         uint8_t *af = buffer + TS_HEADER_SIZE;
@@ -200,9 +205,13 @@ static void upipe_ts_decaps_input(struct upipe *upipe, struct uref *uref,
         discontinuity = true;
     }
 
+    /* the continuity counter is not incremented by packets without payload,
+     * and those bearing the same counter have been handled above */
     if (unlikely(!discontinuity &&
-                 ts_check_discontinuity(cc, upipe_ts_decaps->last_cc))) {
-        int lost = (0x10 + cc - upipe_ts_decaps->last_cc - 1) & 0xf;
+                 (!has_payload ||
+                  ts_check_discontinuity(cc, upipe_ts_decaps->last_cc)))) {
+        int lost = (0x10 + cc - upipe_ts_decaps->last_cc -
+                    (has_payload ? 1 : 0)) & 0xf;
         upipe_ts_decaps->lost += lost;
         upipe_warn_va(upipe, "potentially lost %d packets", lost);
         discontinuity = true;
@@ -210,9 +219,12 @@ static void upipe_ts_decaps_input(struct upipe *upipe, struct uref *uref,
     upipe_ts_decaps->last_cc = cc;
 
     if (unlikely(!has_payload)) {
+        /* signal it with the next packet carrying a payload */
+        upipe_ts_decaps->discontinuity = discontinuity;
         uref_free(uref);
         return;
     }
+    upipe_ts_decaps->discontinuity = false;
 
     if (unlikely(discontinuity))
         uref_flow_set_discontinuity(uref);
